@@ -191,7 +191,7 @@ def correspondence(ctx, seed, n):
     return len(hs), nops, problems
 
 
-def extend_corr(ctx, corr, n_quick=120, n_thorough=1500):
+def extend_corr(ctx, corr, n_quick=120, n_thorough=1000):
     """Add the many-to-many correspondence run to the Corr of a session check (C09 / C12)."""
     n, nops, problems = correspondence(ctx, ctx.seed, ctx.scale(n_quick, n_thorough))
     corr.cases += nops
